@@ -614,6 +614,12 @@ def validate(ctx, rep, events, trace_spec, chunk=1500, jobs=6, tag="codec"):
                     if not isinstance(why, (set, frozenset)):
                         raise tlc.TlcError(f"trace validation gave no reason for event {ev.get('_meta')}: {v}")
                     harness = [w for w in why if str(w).startswith("harness:")]
+                    if harness and _has_opaque(ev.get("kinds", [])) and not any(str(w) == "harness:unknown-event" for w in harness):
+                        # the harness builds the bytes of opaque fields with bumble's own serialiser of that field type and
+                        # measures them with its parser: an inconsistent claim on such an event means that pair is not
+                        # self-consistent (serialise / parse disagree on the extent of the field) - a codec defect, not ours
+                        rejected.append((ev, ["opaque:" + ",".join(sorted(str(w)[8:] for w in harness))], {}))
+                        continue
                     if harness:
                         raise tlc.TlcError(f"harness error {sorted(harness)} for event meta={ev.get('_meta')} {str({k: ev[k] for k in ev if k != '_meta'})[:600]}")
                     rejected.append((ev, sorted(why), v[3] if len(v) > 3 else {}))
@@ -622,6 +628,10 @@ def validate(ctx, rep, events, trace_spec, chunk=1500, jobs=6, tag="codec"):
     rep.extra["events_validated"] = rep.extra.get("events_validated", 0) + len(events)
     rep.traces += len(events)
     return rejected
+
+
+def _has_opaque(kinds):
+    return any(k.get("k") == "opq" or _has_opaque(k.get("sub", [])) for k in kinds)
 
 
 def first_diff(a, b):
